@@ -317,6 +317,51 @@ def _is_splice_size(prog, g, v):
     return False
 
 
+def stores_via_helpers(prog, f, pred, depth=2, chain=()):
+    """[(store, function, chain)]: stores selected by pred in f and in static helpers of the same unit that f calls;
+    chain = ((caller, call inst), ...) from f down to the function holding the store"""
+    out = []
+    f.build()
+    for i in f.insts():
+        if i.op == "store" and pred(i):
+            out.append((i, f, chain))
+    if depth > 0:
+        for c in f.calls():
+            t = prog.fn(c.callee, f.unit) if c.callee else None
+            if t is None or isinstance(t, ExternFn) or t.decl or t.unit is not f.unit or t is f or not t.internal:
+                continue
+            out += stores_via_helpers(prog, t, pred, depth - 1, chain + ((f, c),))
+    return out
+
+
+def lift(v, fn, chain):
+    """values in the outermost caller's space that v (a value inside fn at the end of chain) is computed from: parameter
+    leaves are replaced by the arguments of the call that leads there"""
+    leaves = []
+    params = []
+    for x in backward_slice(v, through_loads=False, phi_control=False, limit=300):
+        if not x.is_inst and not x.is_const and x in fn.params:
+            params.append(x)
+    if not chain:
+        return [v]
+    caller, call = chain[-1]
+    outv = []
+    if not params:
+        return [v] if False else []
+    for p in params:
+        if p.idx < len(call.ops):
+            outv += lift(call.ops[p.idx], caller, chain[:-1])
+    return outv
+
+
+def chain_guards(f_of_store, store, chain):
+    """mask facts that hold at the store: its own block's guards plus those of every call site on the way down"""
+    gs = list(guards_with_mask(f_of_store, store.bb))
+    for (caller, call) in chain:
+        gs += list(guards_with_mask(caller, call.bb))
+    return gs
+
+
 def rule_transport(chk, prog, E):
     """C17-a(2..4): every link of the chain sort file -> node -> ostream -> begin_file -> blk_flags -> block -> writer passes the word on"""
     def load_of(field):
@@ -345,32 +390,42 @@ def rule_transport(chk, prog, E):
     outs = {"flags": [strip_casts(a) for a in df[0].ops if a.is_inst and strip_casts(a).op == "alloca" and a.ty == "i32*"],
             "priority": [strip_casts(a) for a in dp[0].ops if a.is_inst and strip_casts(a).op == "alloca" and a.ty == "i64*"]}
     for fld in ("flags", "priority"):
-        sts = [i for i in f.insts() if i.op == "store" and not i.ops[0].is_const and (field_of_ptr(i.ops[1]) or ("", ""))[1] == fld and
-               "anon" in (field_of_ptr(i.ops[1]) or ("", ""))[0]]
+        found = stores_via_helpers(prog, f, lambda i: not i.ops[0].is_const and (field_of_ptr(i.ops[1]) or ("", ""))[1] == fld and
+                                   "anon" in (field_of_ptr(i.ops[1]) or ("", ""))[0])
         inst = "fstree_sort_files:node.%s" % fld
-        if not sts:
+        if not found:
             chk.violation("K13-transport", inst, f, "a matched file no longer receives the %s decoded from its sort file line" % fld)
             continue
-        for s in sts:
-            src_ok = depends_on(s.ops[0], lambda x: x.is_inst and x.op == "load" and strip_casts(x.ops[0]) in outs[fld])
-            if src_ok and not (fld == "flags" and cleared_user_bits(s.ops[0], E)):
-                chk.ok("K13-transport", inst, s, "the matched node receives the %s decoded from the line" % fld)
+        for (s_, g_, ch) in found:
+            for site in ([None] if not ch else [ch]):
+                pass
+            srcs = lift(s_.ops[0], g_, ch) if ch else [s_.ops[0]]
+            where = "%s%s" % (g_.name, (" via " + " <- ".join(c.bb.fn.name for (_f, c) in ch)) if ch else "")
+            src_ok = bool(srcs) and all(depends_on(v, lambda x: x.is_inst and x.op == "load" and strip_casts(x.ops[0]) in outs[fld]) for v in srcs)
+            masked = fld == "flags" and (cleared_user_bits(s_.ops[0], E) or any(cleared_user_bits(v, E) for v in srcs))
+            if src_ok and not masked:
+                chk.ok("K13-transport", inst, s_, "the matched node receives the %s decoded from the line (%s)" % (fld, where))
             else:
-                chk.violation("K13-transport", inst, s, "the value stored as the file's %s does not come (unmasked) from the decoder of the line" % fld)
-        # first match wins: the stores are dominated by the ALREADY_MATCHED bit being clear, and the bit is set alongside
-        for s in sts:
-            facts = [(x, m, st) for (x, m, st) in guards_with_mask(f, s.bb) if st == "clear" and (field_of(x) or ("", ""))[1] == "flags"
+                chk.violation("K13-transport", inst, s_, "the value stored as the file's %s does not come (unmasked) from the decoder of the line (%s)" % (fld, where))
+            # first match wins: on the way to the store the ALREADY_MATCHED bit was tested clear, and the bit is set alongside
+            facts = [(x, m, st) for (x, m, st) in chain_guards(g_, s_, ch) if st == "clear" and (field_of(x) or ("", ""))[1] == "flags"
                      and "tree_node_t" in (field_of(x) or ("", ""))[0]]
-            marks = [i for i in s.bb.insts if i.op == "store" and (field_of_ptr(i.ops[1]) or ("", ""))[1] == "flags" and
+            mark_fns = [g_] + [c_[0] for c_ in ch]
+            marks = [i for mf in mark_fns for i in mf.insts() if i.op == "store" and (field_of_ptr(i.ops[1]) or ("", ""))[1] == "flags" and
                      "tree_node_t" in (field_of_ptr(i.ops[1]) or ("", ""))[0]]
             inst2 = "fstree_sort_files:first-match.%s" % fld
-            if facts and marks:
-                mk = unext(marks[0].ops[0])
-                mval = [o.sval for o in (mk.ops if mk.is_inst and mk.op == "or" else []) if o.is_const and o.is_int]
-                if mval and (mval[0] & facts[0][1]):
-                    chk.ok("K13-first", inst2, s, "assigned only while the node's already-matched bit 0x%x is clear, and the bit is set with it" % facts[0][1])
-                    continue
-            chk.violation("K13-first", inst2, s, "a later sort file line can overwrite the %s of a file an earlier line already matched" % fld)
+            okf = False
+            if facts:
+                for mk_ in marks:
+                    mk = unext(mk_.ops[0])
+                    mval = [o.sval for o in (mk.ops if mk.is_inst and mk.op == "or" else []) if o.is_const and o.is_int]
+                    if mval and (mval[0] & facts[0][1]):
+                        okf = True
+            if okf:
+                chk.ok("K13-first", inst2, s_, "assigned only while the node's already-matched bit 0x%x is clear, and the bit is set with it (%s)" % (facts[0][1], where))
+            else:
+                chk.violation("K13-first", inst2, s_, "a later sort file line can overwrite the %s of a file an earlier line already matched: "
+                              "on the way to this assignment (%s) the already-matched bit is not tested" % (fld, where))
     # pack_file -> ostream
     for tool, fname, what in (("gensquashfs", "pack_file", "node"), ("tar2sqfs", "write_file", None)):
         p2 = prog if tool == "gensquashfs" else load_program("tar2sqfs")
@@ -432,7 +487,23 @@ def rule_transport(chk, prog, E):
         elif kind == "slot":
             vals = [(c.ops[argi], c) for c in g.calls() if slot_call(c) == tgt]
         else:
-            vals = [(i.ops[0], i) for i in g.insts() if i.op == "store" and (field_of_ptr(i.ops[1]) or ("", ""))[1] == tgt and not i.ops[0].is_const]
+            vals = []
+            for (st_, gf_, ch_) in stores_via_helpers(prog, g, lambda i: (field_of_ptr(i.ops[1]) or ("", ""))[1] == tgt and
+                                                      "sqfs_block" in (field_of_ptr(i.ops[1]) or ("", ""))[0]):
+                if st_.ops[0].is_const:
+                    # a constant written into the carrier: the file's flags do not get there at all
+                    vals.append((st_.ops[0], st_))
+                    continue
+                if not ch_:
+                    vals.append((st_.ops[0], st_))
+                else:
+                    lifted = lift(st_.ops[0], gf_, ch_)
+                    if not lifted:
+                        vals.append((st_.ops[0], st_))
+                    for v_ in lifted:
+                        vals.append((v_, st_))
+                        if cleared_user_bits(st_.ops[0], E):
+                            vals.append((st_.ops[0], st_))
         inst = "%s:%s" % (fn, tgt if isinstance(tgt, str) else tgt[1])
         if not vals:
             chk.violation("K13-transport", inst, g, "link missing: " + what)
